@@ -763,6 +763,26 @@ impl Rasn {
                 let class_fields = if self.config.opaque_open_types {
                     TokenStream::new()
                 } else {
+                    // The decode helpers are named after the object set of the table constraint
+                    let inline_object_set = seq.members.iter().any(|m| {
+                        m.constraints.iter().chain(m.ty.constraints()).any(|c| {
+                            matches!(
+                                (c, &m.ty),
+                                (Constraint::Table(t), ASN1Type::ObjectClassField(_))
+                                    if !matches!(
+                                        t.object_set.values.first(),
+                                        Some(ObjectSetValue::Reference(_))
+                                    )
+                            )
+                        })
+                    });
+                    if inline_object_set {
+                        return Err(GeneratorError::new(
+                            Some(ToplevelDefinition::Type(tld)),
+                            "Table constraints with an inline object set are currently unsupported for non-opaque open types!",
+                            GeneratorErrorType::NotYetInplemented,
+                        ));
+                    }
                     seq.members.iter().fold(
                     TokenStream::new(),
                     |mut acc, m| {
@@ -780,7 +800,8 @@ impl Rasn {
                                 }
                                 let obj_set_name = match t.object_set.values.first() {
                                     Some(ObjectSetValue::Reference(s)) => self.to_rust_title_case(s),
-                                    _ => todo!()
+                                    // ruled out above
+                                    _ => return,
                                 };
                                 let field_enum_name = format_ident!("{obj_set_name}_{field_name}");
                                 let input = if m.optionality == Optionality::Required {
